@@ -80,11 +80,19 @@ def build(ctx, target, op, nlri_mode):
     f = flags
     if op == 'flags':
         f = 0x40 * ctx.int('t.fbits', 0, 3) + 0x20 * ctx.int('t.partial', 0, 1)
+    # the length octets: one octet, or two with the EXTENDED_LENGTH bit (RFC 4271 4.3 allows it on any attribute) — the
+    # length arithmetic of the parser differs between the two forms, so the corrupted attribute is tried in both
+    ext = bool(ctx.bool('t.ext')) if op in ('overrun', 'short', 'long') else False
+    if ext:
+        ctx.cover('extended-length-form')
+
+    def head(n):
+        return [f | 0x10, code] + K.be(n, 2) if ext else [f, code, n]
     if op == 'overrun':
         excess = ctx.int('t.excess', 1, 20)
-        tlv = [f, code, len(value) + excess] + value
+        tlv = head(len(value) + excess) + value
     else:
-        tlv = [f, code, len(value)] + value
+        tlv = head(len(value)) + value
     attrs = dict(base)
     if nlri_mode == 'mp':
         del attrs[3]
